@@ -101,7 +101,9 @@ def build_harness(name, kind="dbg", extra_flags=(), libs=()):
     """Compile harness/<name>.cpp against the freshly built library; returns the binary path."""
     lib = build_lib(kind)
     src = VERIF / "harness" / (name + ".cpp")
-    outdir = BUILD / kind / "h"
+    # one directory of harness binaries per verif tree: several trees (worktrees of contributors) may
+    # share one library build directory through BFL_BUILD_DIR but have different harness sources
+    outdir = BUILD / kind / ("h-" + hashlib.sha256(str(VERIF).encode()).hexdigest()[:8])
     outdir.mkdir(parents=True, exist_ok=True)
     binary = outdir / name
     dep = outdir / (name + ".d")
